@@ -143,7 +143,7 @@ class Aggregate:
         elif not s['ok']:
             k = None
             if self.prop is not None and s.get('case') is not None:
-                k = match_known(self.prop, dict(s['case'], tape=s.get('tape')), s['viol'][0][0], self.known)
+                k = match_known(self.prop, dict(s['case'], tape=s.get('tape')), s['viol'][0][0], self.known, msg=s['viol'][0][1])
             if k is not None:
                 self.known_hits[k['id']] = self.known_hits.get(k['id'], 0) + 1
             else:
@@ -238,7 +238,26 @@ def ops_of(prog):
     return ops
 
 
-def match_known(prop, case, vclass, known=None):
+def _flt_assert_small(msg):
+    """The recorded symptom of flt-reciprocal-unnormalised: SecureFloat._output's assertion about a significand
+    that is only slightly outside [0.5, 1] (e.g. 0.4921875); garbage significands are something else."""
+    import re
+    if msg is None:
+        return True
+    m = re.search(r'AssertionError\(\(\[([^\]]*)\]', msg)
+    if not m:
+        return False
+    try:
+        vals = [abs(float(v)) for v in m.group(1).split(',') if v.strip()]
+    except ValueError:
+        return False
+    return all(v <= 2.0 for v in vals)
+
+
+MESSAGE_PREDICATES = {'flt_assert_small': _flt_assert_small}
+
+
+def match_known(prop, case, vclass, known=None, msg=None):
     """Return the finding (status 'finding') this violation is an instance of, or None."""
     known = load_known() if known is None else known
     for k in known:
@@ -246,6 +265,9 @@ def match_known(prop, case, vclass, known=None):
         if k.get('status') != 'finding' or prop not in props:
             continue
         sig = k['signature']
+        pred = sig.get('message_predicate')
+        if pred and not MESSAGE_PREDICATES[pred](msg):
+            continue
         classes = sig.get('class')
         if classes and vclass not in (classes if isinstance(classes, list) else [classes]):
             continue
